@@ -401,6 +401,20 @@ func runC19Bounds(c *Ctx) {
 						f.le("", 0, bc.key(call), 0, 0) // idx >= 0
 					}
 				}
+				// the same fact for the splitting form: a text containing ':' splits into >= 2 parts
+				for _, nm := range []string{"strings.SplitN", "strings.Split"} {
+					for _, call := range callsIn(fn, nm) {
+						if s, _ := constString(call.Call.Args[1]); s != ":" {
+							continue
+						}
+						if nm == "strings.SplitN" {
+							if n, ok := constInt(call.Call.Args[2]); !ok || (n >= 0 && n < 2) {
+								continue
+							}
+						}
+						f.le("", 0, "len("+bc.key(call)+")", 0, -2)
+					}
+				}
 			}
 		case "ParseFile":
 			// the source text of a tag literal (ast.BasicLit.Value of Field.Tag) is quoted: len >= 2
